@@ -240,6 +240,7 @@ PROPS = {
             {"pkg": "./c13", "run": "TestC13Concurrent", "race": True, "shards": 2, "shards_thorough": 4, "timeout": 300},
             {"pkg": "./mainpkg", "run": "^TestC13MainWiring|^TestC13KVOutage", "shards": 2, "shards_thorough": 4, "timeout": 300},
             {"pkg": "./mainpkg", "run": "^TestC13Pipeline", "race": True, "shards": 4, "shards_thorough": 4, "timeout": 400},
+            {"pkg": "./c02", "run": "^TestC13", "shards": 2, "shards_thorough": 4, "timeout": 300},
         ],
         "rule": ("rapid-generated redirect routes over the documented template forms (https://h$path, https://$host$path, http://h/$path, http://h/bbb$path, http://h/bbb/$path, fixed targets, $host with fixed path; "
                  "with/without own query) under host-less, host-specific, *:80 and *.x routes, codes 300-399, strip/prepend combinations; requests parsed by net/http from raw bytes with percent-encoded octets "
